@@ -114,8 +114,16 @@ func init() {
 		p.env = func() {
 			pause, _ := time.ParseDuration(st.D)
 			w.lockoutPause = pause
+			w.lockoutReplay = ""
+			if st.A == "replay" {
+				// the newest code this user had accepted
+				f := w.model.user(st.User)
+				for c := range f.UsedTOTP {
+					w.lockoutReplay = c
+				}
+			}
 			w.lockoutProbe(st.Sess, st.User, int(st.N))
-			w.lockoutPause = 0
+			w.lockoutPause, w.lockoutReplay = 0, ""
 		}
 		return p
 	}
@@ -217,6 +225,13 @@ func (w *vfWorld) lockoutProbe(sess, user string, n int) {
 	}
 	for i := 0; i < n; i++ {
 		time.Sleep(2100 * time.Millisecond)
+		if i == 4 && w.lockoutReplay != "" {
+			// in between, a code that was accepted (and so consumed) earlier is presented again: refused, and no reason to forgive the failures
+			s := w.totpSession(sess, user)
+			w.serve(&vfReq{Method: "POST", Path: "/api/v0/TOTPAuth", Cookies: map[string]string{authCookieName: s.Cookies[authCookieName]}, Form: url.Values{"OTP": {w.lockoutReplay}}})
+			w.model.user(user).lastTOTPAttempt = time.Now()
+			time.Sleep(2100 * time.Millisecond)
+		}
 		if i == 4 && w.lockoutPause > 0 && i < n {
 			// a patient guesser: four failures, a pause (well under an hour), then on with it - still "repeated failures"
 			time.Sleep(w.lockoutPause)
@@ -327,7 +342,7 @@ func genRatePlan(r *rand.Rand, tier string) *vfPlan {
 			case 4:
 				add(vfStep{Op: "totpguess", Sess: "t2", User: "bob", A: "right", D: "300ms"})
 			case 5, 6:
-				add(vfStep{Op: "lockout_probe", Sess: "t1", User: "alice", N: int64(pick(r, []int{5, 5, 10, 15})), D: pick(r, []string{"", "", "6m", "20m"})})
+				add(vfStep{Op: "lockout_probe", Sess: "t1", User: "alice", N: int64(pick(r, []int{5, 5, 10, 15})), D: pick(r, []string{"", "", "6m", "20m"}), A: pick(r, []string{"", "", "replay"})})
 			case 8:
 				// a storage latency spike under one guess, the next guess right behind it
 				add(vfStep{Op: "sleep", D: "3s"})
@@ -351,6 +366,10 @@ func genRatePlan(r *rand.Rand, tier string) *vfPlan {
 			p.Tape = append(p.Tape, r.IntN(6))
 		}
 		return p
+	}
+	if chance(r, 0.2) {
+		// passwords are checked by a directory with several servers: what the limiter admits is counted as binds there
+		p.Cfg.PwBackend, p.Cfg.LDAPServers, p.Cfg.NoPwCache = "ldap", pick(r, []int{2, 3}), chance(r, 0.5)
 	}
 	if chance(r, 0.3) {
 		// the budget is spent down to a few attempts, then several guesses arrive at the same moment
